@@ -1992,15 +1992,21 @@ def r7_amplitude_scaling(ctx):
 
 def _homogeneous_tests(ctx, S, D, q, fn):
     n = 0
-    where = {}
+    where, when = {}, {}
     for t in S.tr.tests:
         for x in _cmp_atoms([t[0]]):
             where.setdefault(repr(x[0]), t[1])
+            if len(t) > 4:
+                when[repr(x[0])] = min(when.get(repr(x[0]), t[4]), t[4])
     for c in S.cells():
         for x in _cmp_atoms([c[1], c[2]]):
             where.setdefault(repr(x[0]), c[3])
+            when[repr(x[0])] = min(when.get(repr(x[0]), c[4]["seq"]), c[4]["seq"])
     for cmpv, a, b in _cmp_atoms(_all_values(S)):
-        da, db = D.of(a), D.of(b)
+        # the arrays a comparison reads are judged with the content they had when it was made (a row of levels that is re-scaled afterwards
+        # still held the unit levels)
+        at = when.get(repr(cmpv))
+        da, db = D.asof(a, at), D.asof(b, at)
         zero = (Fraction(0), ANY)
         if da in zero and db in zero:
             continue            # nothing that scales with the signal on either side
